@@ -106,7 +106,9 @@ CLAIMED["C02"] = dict(
          "restarts lose nothing, nothing is issued after a failure; duplex: Ok iff both directions finished, an error stops both. Tied "
          "to pipe.rs by replaying the call log of the real DuplexPipe (scripted endpoints, paused clock) through the machine, which "
          "must predict every call, plus a direct byte/credit/order oracle on the log; and by live CONNECT tunnels with patterned data "
-         "through the real HTTP/1.1, HTTP/2 (suite c02live) and HTTP/3 (suite c02h3, real QUIC listener) codecs and the real forwarder.",
+         "through the real HTTP/1.1, HTTP/2 (suite c02live) and HTTP/3 (suite c02h3, real QUIC listener) codecs and the real forwarder; the "
+         "HTTP/3 codec's stream table has its own model (TT.H3Streams: the two directions of a stream end independently, streams do not "
+         "disturb each other) replayed against the operations the real codecs performed during those runs.",
     note="Trusted: Lean kernel, harness/door (scripted Source/Sink implement the crate-private traits inside lib/src/verif.rs), "
          "cancel-safety of real sources, h2/quiche flow-control internals (consume(n) -> WINDOW_UPDATE n), kernel TCP. Cancellation of a "
          "pending flush() is not modelled (scripts use instantaneous flushes).",
